@@ -480,9 +480,11 @@ class MemorizedFunc(Logger):
 
         # Call the user defined cache validation callback
         metadata = self.store_backend.get_metadata(call_id)
-        if (
-            self.cache_validation_callback is not None
-            and not self.cache_validation_callback(metadata)
+        if self.cache_validation_callback is not None and (
+            # Missing or unreadable metadata (e.g. the process was killed
+            # between storing the result and its metadata): the entry cannot
+            # be validated and is recomputed.
+            not metadata or not self.cache_validation_callback(metadata)
         ):
             self.store_backend.clear_item(call_id)
             return False
